@@ -214,6 +214,7 @@ pub fn run_c03(out: &mut Out, tier: &str, seed: u64) {
         }
     }
     out.notes.insert("wrong_delivery_kinds".into(), json!(kind_counts));
+    crate::consts::check(out, &["CRYPTO_SECRETSTREAM"]);
 }
 
 /// tamper family on stream pull (C02: rejected; C17: buffer / tag variable untouched)
